@@ -422,6 +422,20 @@ theorem accept_decision {c : Cfg} (hc : Proved c) (w : World) :
   simp only [wstep, full, hc.2.2.2.2.2.2.2.2.2.2]
   by_cases h : w.count ≥ w.max <;> simp [h]
 
+/-- a full server closes any number of surplus connections in a row and admits none of them -/
+theorem connects_when_full {c : Cfg} (hc : Proved c) (w : World) (hfull : w.count ≥ w.max) : ∀ (n : Nat),
+    (worldLTS c w.max).run w (List.replicate n .connect) = some { w with rejected := w.rejected + n }
+  | 0 => rfl
+  | n + 1 => by
+    have hstep : (worldLTS c w.max).step w .connect = some { w with rejected := w.rejected + 1 } := by
+      show wstep c w .connect = _
+      rw [accept_decision hc]; simp [hfull]
+    simp only [List.replicate_succ, LTS.run, hstep]
+    have ih := connects_when_full hc { w with rejected := w.rejected + 1 } hfull n
+    simp only at ih
+    rw [ih]
+    simp [Nat.add_assoc, Nat.add_comm 1 n]
+
 /-- when every session of a reachable world is quiescent, each is ended or waiting and the count is exactly the number
     of sessions still waiting: every ended session has returned the count to its previous value -/
 theorem count_at_quiescence {c : Cfg} (hc : Proved c) (max : Int) {k : OnExitKind} (hx : OnExitReturns k) (w : World)
